@@ -426,6 +426,13 @@ func (u *Unit) check(st *State, extra ...Term) string {
 func (u *Unit) Prove(st *State, name, class string, tags []string, pos token.Pos, clause string, goal Term, values []Term) bool {
 	o := u.getOblig(name, class, tags, pos, clause)
 	o.Paths++
+	if dbg := os.Getenv("GOVC_GOAL"); dbg != "" && strings.Contains(name, dbg) {
+		g := goal.String()
+		if len(g) > 600 {
+			g = g[:600]
+		}
+		fmt.Fprintf(os.Stderr, "GOAL %s: %s\n", name, g)
+	}
 	if isTrue(goal) {
 		o.Trivial++
 		return true
